@@ -22,11 +22,17 @@ demo = next((p for p in sorted(src.iterdir()) if p.name.startswith("demo")), Non
 first = demo.read_text().splitlines()[0]
 m = re.search(r"(?:build\+run|build and run|run)\s*:\s*(.*)$", first)
 cmd = re.sub(r"\s*\*/\s*$", "", m.group(1)).strip() if m else ("bash " + str(demo))
+BUILD = "cmake -S . -B _b -G Ninja -DCMAKE_BUILD_TYPE=RelWithDebInfo >/dev/null 2>&1 && cmake --build _b 2>&1 | tail -2"
 sh("git checkout -- . && git clean -fdq -e out", cwd=wt)
+sh(BUILD, cwd=wt)                       # demos may link against _b/libcarquet.a
 r0 = sh(cmd, cwd=wt)
 a = sh(f"git apply {src}/patch.diff", cwd=wt)
+sh(BUILD, cwd=wt)
 r1 = sh(cmd, cwd=wt)
-t = sh("cmake -S . -B _b -G Ninja -DCMAKE_BUILD_TYPE=RelWithDebInfo >/dev/null 2>&1 && cmake --build _b 2>&1 | tail -2 && ctest --test-dir _b -j8 --timeout 900 2>&1 | tail -3", cwd=wt)
+for attempt in range(3):                # the suite writes fixed names under /tmp: concurrent runs elsewhere can collide
+    t = sh("ctest --test-dir _b -j8 --timeout 900 2>&1 | tail -3", cwd=wt)
+    if "100% tests passed" in t.stdout:
+        break
 sh("rm -rf _b && git checkout -- .", cwd=wt)
 ok = (r0.returncode == 0 and a.returncode == 0 and r1.returncode != 0 and "100% tests passed" in t.stdout)
 print("demo without change rc=%d, apply rc=%d, demo with change rc=%d, suite: %s" % (r0.returncode, a.returncode, r1.returncode, t.stdout.strip().splitlines()[-3:] if t.stdout else t.stderr[-200:]))
